@@ -34,10 +34,11 @@ QUOTA = {'quick': 25, 'thorough': 500}
 REQUIRED = {'quick': {'evaluations': 15000, 'scripts_scanned': 10000, 'scripts_with_quoted_embed': 3000,
                       'scripts_with_comment_embed': 3000, 'repeated_expression_scripts': 500, 'runs': 300,
                       'level_identity_checks': 150, 'pragma_vs_argument_checks': 60, 'metadata_only_checks': 300,
-                      'first_subset_empty_messages': 4, 'cli_script_runs': 33},
+                      'first_subset_empty_messages': 4, 'cli_script_runs': 33, 'reuse_runs': 300},
             'thorough': {'evaluations': 250000, 'scripts_scanned': 140000, 'scripts_with_quoted_embed': 50000,
                       'scripts_with_comment_embed': 50000, 'repeated_expression_scripts': 10000, 'runs': 8000,
-                      'level_identity_checks': 3000, 'pragma_vs_argument_checks': 1000, 'metadata_only_checks': 8000}}
+                      'level_identity_checks': 3000, 'pragma_vs_argument_checks': 1000, 'metadata_only_checks': 8000,
+                      'reuse_runs': 12000}}
 
 
 EXHAUSTIVE = {'quick': False, 'thorough': False}
@@ -388,6 +389,52 @@ def join_bits(m1, m2):
     return w.bytes()
 
 
+def reuse_checks(ctx, prev, m, pools, origin):
+    """a ScriptRunner is reusable: run over message A, then B, then (after a run that raised) A again, it binds what a fresh
+    runner binds for that message - nothing of the previous message, the previous level or the failed run is left in it"""
+    from pybufrkit.script import ScriptRunner
+    pa = [e for e in pools[0] if not e.startswith('%')][:1]
+    pb = [e for e in pools[1] if not e.startswith('%')][-1:]
+    exprs = ['%n_subsets', '%length', '%2.section_length', '%3.section_length'] + pa + pb
+    body = ''.join('v%d = ${%s}\n' % (j, e) for j, e in enumerate(exprs))
+    for lvl in ((1, 4) if ctx.quick else (0, 1, 2, 4)):
+        spec = dict(script=body, origin=origin, level=lvl)
+        try:
+            runner = ScriptRunner(body, data_values_nest_level=lvl)
+            failing = ScriptRunner('w = ${%n_subsets} // 0\n' + body, data_values_nest_level=lvl)
+            seq = []
+            for which, msg in (('A', prev), ('B', m), ('fail', m), ('A', prev), ('B', m)):
+                if which == 'fail':
+                    try:
+                        failing.run(msg)
+                        ctx.count('reuse_failing_run_accepted')
+                    except ZeroDivisionError:
+                        ctx.count('reuse_failing_runs')
+                    # the failing runner itself is reusable too
+                    try:
+                        failing.run(prev)
+                    except ZeroDivisionError:
+                        pass
+                    continue
+                got = runner.run(msg)
+                fresh = ScriptRunner(body, data_values_nest_level=lvl).run(msg)
+                seq.append((which, [repr(got.get('v%d' % j)) for j in range(len(exprs))],
+                            [repr(fresh.get('v%d' % j)) for j in range(len(exprs))]))
+        except Exception as e:
+            ctx.violate('run-raises:%s/reuse' % type(e).__name__, 'a reused runner raised %s: %s' % (type(e).__name__, str(e)[:100]),
+                        spec, exc=e)
+            return
+        for k, (which, got, fresh) in enumerate(seq):
+            ctx.count('reuse_runs')
+            ctx.evaluated((body, lvl, k, origin, id(m) % 1000), True)
+            if got != fresh:
+                j = [a != b for a, b in zip(got, fresh)].index(True)
+                ctx.violate('runner-reuse/%s' % ('metadata' if exprs[j].startswith('%') else 'data'),
+                            'run %d (message %s) of a reused runner binds %s for ${%s}; a fresh runner binds %s'
+                            % (k, which, got[j][:80], exprs[j], fresh[j][:80]), spec)
+                return
+
+
 def run(ctx):
     from pybufrkit.decoder import Decoder
     rng = ctx.rng
@@ -411,6 +458,7 @@ def run(ctx):
     dec = Decoder()
     repo = os.environ.get('VERIF_REPO', '/repo')
     files = sorted(glob.glob(os.path.join(repo, 'tests', 'data', '*.bufr')))
+    prev = None
     for i, f in enumerate(files):
         if not ctx.mine(i) or os.path.basename(f) in ('multi_invalid_messages.bufr', 'prepbufr.bufr'):
             continue
@@ -421,6 +469,9 @@ def run(ctx):
             continue
         ctx.count('corpus_messages')
         run_checks(ctx, m, pool, 'corpus:' + os.path.basename(f))
+        if prev is not None:
+            reuse_checks(ctx, prev[0], m, (prev[1], pool), 'corpus-pair:' + os.path.basename(f))
+        prev = (m, pool)
         if i % 4 == 0:
             scratch = os.path.join(os.environ.get('VERIF_SCRATCH', '/verif/.scratch'), 'c18-%d' % ctx.shard)
             os.makedirs(scratch, exist_ok=True)
@@ -479,6 +530,9 @@ def run(ctx):
             ctx.count('decode_raises')
             continue
         run_checks(ctx, m, pool, 'random')
+        if prev is not None and q % 3 == 0:
+            reuse_checks(ctx, prev[0], m, (prev[1], pool), 'random-pair')
+        prev = (m, pool)
 
 
 def replay(ctx, case):
